@@ -172,3 +172,49 @@ def law_violations(observed, sources):
         if len(bad) > 20:
             break
     return bad, checked
+
+
+def _verdict(args):
+    path, src = args
+    open(path, 'w').write(src)
+    r = subprocess.run(['rustc', '--edition', '2021', '--crate-type', 'lib', '--emit=metadata', '--extern',
+                        f'derive_ex={SO}', '--error-format=json', '-o', path[:-3] + '.rmeta', path],
+                       capture_output=True, text=True, env=ENV)
+    diags = []
+    for line in r.stderr.splitlines():
+        if not line.startswith('{'):
+            continue
+        try:
+            import json
+            d = json.loads(line)
+        except Exception:
+            continue
+        if d.get('level') in ('error', 'warning') and d.get('message') and not d['message'].startswith('aborting due to'):
+            sp = d.get('spans') or [{}]
+            in_macro = any(s.get('expansion') for s in sp)
+            diags.append(dict(level=d['level'], code=(d.get('code') or {}).get('code'), message=d['message'][:300],
+                              in_macro_output=in_macro,
+                              line=(sp[0].get('line_start') if sp else None)))
+    for ext in ('.rmeta',):
+        try:
+            os.remove(path[:-3] + ext)
+        except OSError:
+            pass
+    return r.returncode, diags
+
+
+def rustc_verdicts(tag, cases):
+    """cases: list of dict(id, src). Returns list of (case, rc, diags)."""
+    d = f'{WORK}/l2v/{tag}'
+    os.makedirs(d, exist_ok=True)
+    jobs = [(f'{d}/c{i}.rs', c['src']) for i, c in enumerate(cases)]
+    out = []
+    with cf.ThreadPoolExecutor(NPROC) as ex:
+        for c, (rc, diags), (path, _) in zip(cases, ex.map(_verdict, jobs), jobs):
+            out.append((c, rc, diags, path))
+            if rc == 0 and not diags:
+                try:
+                    os.remove(path)
+                except OSError:
+                    pass
+    return out
